@@ -1,2 +1,23 @@
 import SpoxModel.Props.C19
 /-! `#print axioms` for every property theorem of C19; parsed by ./check. -/
+#print axioms C19.generated_good
+#print axioms C19.generator_consistent
+#print axioms C19.modules_covered
+#print axioms C19.sites_good
+#print axioms C19.args_prescribed_if
+#print axioms C19.args_prescribed_sequence_map
+#print axioms C19.args_prescribed_scan_partial
+#print axioms C19.args_prescribed_loop_partial
+#print axioms C19.loop_partial_vs_onnx
+#print axioms C19.loop_scalar_counterexample
+#print axioms C19.scan_axes_counterexample
+#print axioms C19.scan_pinned_counterexample
+#print axioms C19.sequence_map_pinned_counterexample
+#print axioms C19.args_fresh
+#print axioms C19.called_once
+#print axioms C19.called_exactly_once
+#print axioms C19.called_at_most_once
+#print axioms C19.reconstruct_counterexample
+#print axioms C19.out_count
+#print axioms C19.bad_callbacks_typeerror
+#print axioms C19.bad_callback_invocations
